@@ -4,6 +4,11 @@
 #include <stddef.h>
 #include <functional>
 
+// the stub presents the interface of oneTBB 2021.8
+#ifndef TBB_INTERFACE_VERSION
+#define TBB_INTERFACE_VERSION 12080
+#endif
+
 namespace tbbstub {
 // runs body(i) for every i in [0,count) exactly once, on the calling thread and up to
 // (allowed parallelism - threads already active) helper threads; returns after all finished
@@ -23,6 +28,7 @@ void control_pop(void *h);
 struct Group;
 Group *group_create();
 void group_run(Group *g, std::function<void()> f);
+void group_enqueue(Group *g, std::function<void()> f);   // a task of the group enqueued into the arena: runs without anybody waiting
 void group_wait(Group *g);
 void group_destroy(Group *g);
 }  // namespace tbbstub
